@@ -969,6 +969,7 @@ static int run_execution (void) {
 		int o = opts[c];
 		if (o == OPT_END) break;
 		if (o == OPT_TICK) {
+			if (nthr == 0 && fam->idle) { cur = -1; fam->idle (); if (have_viol) { result = 1; break; } }
 			now_ns = ni;
 			if (opt_verbose) printf ("[%d] tick: clock -> T0+%lld ns%s\n", depth - 1, (long long)(now_ns - MC_T0), tickcost ? " (costs E)" : "");
 		} else if (o >= OPT_FAULT && o < OPT_QUIESCE + 1000) {
